@@ -59,6 +59,9 @@ C21_BudgetRestored(o) == o.probe_want >= 0 => o.probe_held = o.probe_want
 (* C22                                                                     *)
 (***************************************************************************)
 C22_ReadsBounded(o) == o.in_read_max <= o.sc.n
+\* an OpenFile call in progress is query I/O against the DataStore as well (the property's title: query I/O stays within
+\* MaxQueryConcurrency): opens and reads in progress together stay within the budget
+C22_IOBounded(o) == o.in_io_max <= o.sc.n
 C22_NoStarvation(o) == o.sc.kind = "multi" => AllQ(o, LAMBDA q : ~q.stalled => (~q.hung /\ q.err_at_false = "nil" /\ q.missing = 0))
 
 (***************************************************************************)
@@ -83,7 +86,7 @@ Props(o) ==
     C21_EveryHandleClosedOnce |-> C21_EveryHandleClosedOnce(o), C21_NoUseAfterClose |-> C21_NoUseAfterClose(o),
     C21_NoSharedHandle |-> C21_NoSharedHandle(o), C21_IteratorReturned |-> C21_IteratorReturned(o),
     C21_NoWorkerAlive |-> C21_NoWorkerAlive(o), C21_BudgetRestored |-> C21_BudgetRestored(o),
-    C22_ReadsBounded |-> C22_ReadsBounded(o), C22_NoStarvation |-> C22_NoStarvation(o),
+    C22_ReadsBounded |-> C22_ReadsBounded(o), C22_IOBounded |-> C22_IOBounded(o), C22_NoStarvation |-> C22_NoStarvation(o),
     C23_AtMostOncePerBlock |-> C23_AtMostOncePerBlock(o), C23_AllOrNoneOfAFile |-> C23_AllOrNoneOfAFile(o),
     C23_ReturnedRowsBlockProcessed |-> C23_ReturnedRowsBlockProcessed(o), C23_SkippedZeroAndTotals |-> C23_SkippedZeroAndTotals(o),
     C23_RowsMatched |-> C23_RowsMatched(o), C27_Silent |-> C27_Silent(o) ]
